@@ -111,7 +111,16 @@ def run_history(ctx, pdb2sql, case, rep=None):
                 if len(objs) >= 6:
                     continue
                 src_tables = o.tables
-                if kind == 'call':
+                if kind == 'call' and '__rowid__' in sel:
+                    # selection by position, the position given as a scalar Python int or NumPy integer (np.argmin / np.where deliver those)
+                    neg, pos_, car = sel['__rowid__']
+                    if o.kind == 'many2sql' or len(src_tables[0]) < 2:
+                        continue
+                    pos_ = pos_ % len(src_tables[0])
+                    val = {'int': int, 'np64': np.int64, 'np32': np.int32, 'intp': np.intp}[car](pos_)
+                    selected = [[r for k_, r in enumerate(src_tables[0]) if (k_ != pos_) == bool(neg)]]
+                    ndb = o.db(**{('no_rowID' if neg else 'rowID'): val}); nk = 'pdb2sql'
+                elif kind == 'call':
                     selected = [[r for r, a in zip(src_tables[0], rows_to_atoms(src_tables[0])) if sel_holds(sel, a)]]
                     if not selected[0]:
                         continue                      # empty selection: F17 (known finding of this property), exercised by the corpus
@@ -211,6 +220,9 @@ def gen_case(rng):
         else:
             kind = rng.choice(['call', 'call', 'interface', 'many', 'many_call'])
             steps.append([kind, oi, rng.choice(SELECTIONS)])
+            if kind == 'call' and rng.random() < 0.25:
+                steps[-1][2] = {'__rowid__': [rng.random() < 0.4, rng.randrange(1000), rng.choice(['int', 'np64', 'np32', 'intp'])]}
+                feats.add('derive-by-position-' + steps[-1][2]['__rowid__'][2])
             derived = True; feats.add('derive-' + kind)
     if fix:
         feats.add('source-fix_chainID')
